@@ -548,6 +548,26 @@ def run(pm, ctx):
                      'a reference to an alias is emitted as the alias validator (which carries the '
                      'alias\'s redactor), never inlined (shared with C08-R4)')
 
+    # ---------------- R8: an alias validator is built from the alias's direct target
+    ctx.rule('C13-R8', 'the validator emitted for `alias B = A` is constructed from alias.data_type '
+                       '(the direct target, emitted as A_validator: the object that carries A\'s '
+                       'redactor), not from the type at the end of the alias chain')
+    from ..conddrift import _subst_text
+    gad = pm.func('stone.backends.python_types.PythonTypesBackend._generate_alias_definition')
+    ctors = [c for c in own_nodes(gad.node) if isinstance(c, ast.Call) and
+             call_name(c) == 'generate_validator_constructor']
+    ctx.floor('C13-R8', len(ctors), 1, 'validator constructor calls in _generate_alias_definition')
+    for c in ctors:
+        arg = c.args[1] if len(c.args) > 1 else next(
+            (k.value for k in c.keywords if k.arg == 'data_type'), None)
+        t = _subst_text(gad, arg) if arg is not None else '?'
+        ctx.check('C13-R8', t.strip('()') == 'alias.data_type',
+                  'alias validator built from alias.data_type', gad.loc,
+                  msg='the validator of an alias is built from %s, not from alias.data_type: '
+                      '`alias B = A` no longer reuses A_validator, so a redactor attached to A is '
+                      'lost for values typed B' % t,
+                  key='C13-R8|%s' % gad.qualname)
+
     ctx.import_rules(pm, 'C02', {'C02-R12'}, 'C13-R7',
                      'the unwrap helpers of the IR peel exactly the wrappers their names say '
                      '(shared with C02-R12)')
